@@ -285,7 +285,7 @@ func DrawCfg(r *rng.R, mode, faults string) GenCfg {
 		w["Export"], w["Import"] = 8, 10
 		w["CreateIndex"] = 4
 	case "nasty":
-		w["Export"], w["Import"] = 1, 3 // mostly ill-formed files: whatever an import does with them, it returns
+		w["Export"], w["Import"] = 0, 3 // ill-formed files only (nothing is exported here: the values of this mode are not JSON-representable): whatever an import does with them, it returns
 		w["FindAll"] = 24
 		w["Derived"] = 8
 		w["CreateIndex"] = 10
